@@ -756,10 +756,21 @@ def _formatted(repo, rep):
     # ignores arguments, every other allocator (the original class's own,
     # used where BaseException's is refused: OSError, ExceptionGroup) may
     # require the original ones -- ExceptionGroup does
+    # (an allocator is X.__new__ called directly, or a local bound to some
+    # class's __new__ -- picked from the original class's MRO)
+    alloc_names = {}
+    for n in ast.walk(f.node):
+        if isinstance(n, ast.Assign) and isinstance(n.targets[0], ast.Name) \
+                and any(isinstance(x, ast.Attribute) and x.attr == "__new__"
+                        for x in ast.walk(n.value)):
+            alloc_names[n.targets[0].id] = n.value
     allocs = [n for n in ast.walk(f.node) if isinstance(n, ast.Call)
-              and isinstance(n.func, ast.Attribute)
-              and n.func.attr == "__new__"]
-    bare = [n for n in allocs if src(n.func.value) != "BaseException"
+              and (isinstance(n.func, ast.Attribute)
+                   and n.func.attr == "__new__"
+                   or isinstance(n.func, ast.Name)
+                   and n.func.id in alloc_names)]
+    bare = [n for n in allocs if not (isinstance(n.func, ast.Attribute) and
+                                      src(n.func.value) == "BaseException")
             and not any(isinstance(a, ast.Starred) and
                         src(a.value) == "exc.args" for a in n.args)]
     rep.check(len(allocs) >= 2 and not bare, "R12.5", site, "an allocator "
@@ -769,6 +780,33 @@ def _formatted(repo, rep):
               construct="allocator-args", where=L.where(
                   f, bare[0].lineno) if bare else wh,
               detail=", ".join(src(n) for n in bare))
+    # the classes made here carry BaseException.__new__ in their own dict:
+    # when an exception is decorated a second time (nested rendering, the
+    # formatter un-wrapping it) ``cls`` is such a class and ``cls.__new__``
+    # is the allocator that was just refused -- the fallback looks past the
+    # classes made here (those with the dict's marker key)
+    made = calls[0].args[2] if calls else None
+    hides = isinstance(made, ast.Dict) and any(
+        isinstance(k, ast.Constant) and k.value == "__new__"
+        for k in made.keys)
+    keys = {k.value for k in made.keys if isinstance(k, ast.Constant)} \
+        if isinstance(made, ast.Dict) else set()
+    direct = [n for n in allocs if isinstance(n.func, ast.Attribute)
+              and src(n.func.value) != "BaseException"]
+    past = [v for v in alloc_names.values()
+            if "__mro__" in src(v) and any(
+                isinstance(c, ast.Compare) and
+                isinstance(c.ops[0], ast.NotIn) and
+                isinstance(c.left, ast.Constant) and c.left.value in keys
+                and src(c.comparators[0]).endswith(".__dict__")
+                for c in ast.walk(v))]
+    rep.check(not hides or (not direct and bool(past)), "R12.5", site,
+              "the fallback allocator is the original class's, found past "
+              "the classes made here (an exception decorated twice can "
+              "still be allocated and formatted)",
+              construct="allocator-past-wrappers", where=L.where(
+                  f, direct[0].lineno) if direct else wh,
+              detail=", ".join(src(n.func) for n in direct))
     # the fallback to the undecorated class is for a class that cannot be
     # derived from, and for nothing else: the try block it guards holds the
     # derivation only (an allocator refusing the derived class -- the OSError
